@@ -117,6 +117,13 @@ func checkC07Fill(c c07Fill, g *caseGuard) (msg, key string) {
 			return fmt.Sprintf("call %d: invalid UTF-8 %q", k, out), "utf8:" + shape
 		}
 		w := vterm.StringWidth(out)
+		if c.Kind == "spinner" && len(c.Tips) == 0 {
+			// the library's default frames (whatever they are): the row is filled or left empty
+			if w != W && out != "" {
+				return fmt.Sprintf("call %d: default spinner row has width %d, allotted %d: %q", k, w, W, out), "spin-width:spinner/default"
+			}
+			continue
+		}
 		if c.Kind == "spinner" {
 			fw := vterm.StringWidth(c.Tips[k%len(c.Tips)])
 			if W < fw {
@@ -240,6 +247,9 @@ func genC07Spin(r *common.Rng) c07Fill {
 	c.Total, c.Current = 100, int64(r.Intn(101))
 	if r.Chance(1, 3) {
 		c.Meta = 1
+	}
+	if r.Chance(1, 8) {
+		c.Tips = nil // SpinnerStyle() without frames: the default ones
 	}
 	return c
 }
@@ -611,7 +621,11 @@ func checkC07Row(row c07Row, g *caseGuard) (msg, key string) {
 	mw := vterm.StringWidth(mid)
 	f := row.Filler
 	exp := bodyW
-	if f.Kind == "spinner" {
+	if f.Kind == "spinner" && len(f.Tips) == 0 {
+		if mw == 0 {
+			exp = 0 // default frames: filled or left empty
+		}
+	} else if f.Kind == "spinner" {
 		if bodyW < vterm.StringWidth(f.Tips[0]) {
 			exp = 0
 		}
